@@ -3,7 +3,7 @@ from .. import routing as R
 from .. import vfcore as V
 
 PROP = "C02"
-TARGETS = ["theories/Routing/Witness.vo", "theories/Routing/Basic.vo", "theories/Routing/Delivery.vo", "theories/Routing/Inv.vo", "theories/Routing/Place.vo"]
+TARGETS = ["theories/Routing/Witness.vo", "theories/Routing/Basic.vo", "theories/Routing/Delivery.vo", "theories/Routing/Inv.vo", "theories/Routing/Place.vo", "theories/Routing/Wire.vo"]
 
 
 def nontrivial(h, ev):
@@ -32,11 +32,12 @@ MANIFEST = {
                  "differential correspondence and delivery monitor (exactly-once, owner, order, well-formed watermarks) on the real streamRouting",
     "text": "Same model and correspondence as C01. Proved for every fault-free action sequence (corollaries of the invariant of Routing/Inv.v): every task a receiver has read is in the sequence "
             "handed to its owner's sender or in the pending group for that owner - never elsewhere, never dropped (C02_received_tasks_reach_their_owner); exactly once and in order as a list equality between what each target's "
-            "sender has been handed plus what is pending for it and the received tasks it owns (C02_exact_placement, theories/Routing/Place.v) - and in source order, no watermark overtaking a "
+            "sender has been handed plus what is pending for it and the received tasks it owns (C02_exact_placement, theories/Routing/Place.v) ; the proxy ids written on each target stream are exactly those of its table's task entries, strictly increasing "
+            "(C02_wire_ids, theories/Routing/Wire.v) - and in source order, no watermark overtaking a "
             "task it covers (C02_owner_stream_in_source_order); grouping is an order-preserving partition; proxy ids are fresh and strictly increasing. The delivery clauses of the property are an executable monitor applied to every implementation trace (and implied for the model by the "
             "correspondence): every sent task was received, goes to the owner computed by the real hash, exactly once, payload identity preserved, source order per target, strictly increasing proxy "
             "ids, watermarks a Temporal receiver accepts (transcription of ExecutableTaskTracker.TrackTasks), and nothing undelivered after completion rounds. Known finding F10 (tasks without routing "
             "information are dropped and later acknowledged) is reported as KNOWN-FINDING.",
-    "note": "Trusted as C01. Proved up to the owner's sender queue and id table; the last hop (what is written on the target stream, exactly once, and the watermark well-formedness a Temporal "
-            "receiver checks) is decided by the monitor + correspondence on the explored histories.",
+    "note": "Trusted as C01. Proved: placement, order, and the ids written on each target's stream (C02_wire_ids: exactly the table's task entries, strictly increasing). Decided by the monitor + "
+            "correspondence on the explored histories only: payload identity on the wire, the watermark well-formedness a Temporal receiver checks, and eventual delivery.",
 }
